@@ -163,7 +163,8 @@ def recoded(t):
             nm = t[1].split('::')[-1]
             if nm in MEASURES:
                 return []
-            if nm not in CONVERSIONS:
+            if nm not in CONVERSIONS and nm not in ('try_from', 'try_into', 'to_be_bytes', 'to_ne_bytes', 'unwrap', 'expect', 'as_array', 'to_array'):
+                # (a checked integer conversion that succeeds keeps the value; byte orders other than little-endian are a matter for C19)
                 unknown.append(nm)
             t = t[2][0]
         else:
